@@ -171,42 +171,162 @@ theorem J_list (l : List Canon) : J (.list l) = '[' :: (JL l ++ [']']) := by
   simp only [J, canonString, String.toList_append, String.toList_intercalate, canonStrings_eq_map, List.map_map]
   rw [← intercalate_eq_JL]
   rfl
+theorem J_bool (b : Bool) : J (.bool b) = if b then ['t', 'r', 'u', 'e'] else ['f', 'a', 'l', 's', 'e'] := by
+  cases b <;> simp [J, canonString] <;> decide
+theorem J_null : J .null = ['n', 'u', 'l', 'l'] := by simp [J, canonString]
+
+/-- sign and integer part of a printed float -/
+def floatHead (n : Bool) (i : Nat) : List Char := (if n then ['-'] else []) ++ (Nat.repr i).toList
+/-- the digits after the point -/
+def floatDigits (ds : List (Fin 10)) : List Char := ds.map fun d => Nat.digitChar d.val
+
+theorem J_float (n : Bool) (i : Nat) (d : Fin 10) (ds : List (Fin 10)) :
+    J (.float n i d ds) = floatHead n i ++ '.' :: floatDigits (d :: ds) := by
+  have e : toString i = Nat.repr i := rfl
+  cases n <;>
+    simp only [J, canonString, String.toList_append, digitsString, String.toList_ofList, floatHead, floatDigits, e] <;>
+    simp <;> rfl
+
+theorem natRepr_digits (n : Nat) : ∀ c ∈ (Nat.repr n).toList, c.isDigit = true := by
+  intro c hc
+  exact Nat.isDigit_of_mem_toDigits (b := 10) (n := n) (by omega) (by omega) (c := c) (by rw [← Nat.toList_repr]; exact hc)
+
+theorem floatHead_chars (n : Bool) (i : Nat) : floatHead n i ≠ [] ∧ ∀ c ∈ floatHead n i, numCh c = true := by
+  unfold floatHead
+  refine ⟨?_, ?_⟩
+  · intro e
+    have := (natRepr_chars i).1
+    cases n
+    · simp only [Bool.false_eq_true, if_false, List.nil_append] at e; exact this e
+    · simp at e
+  · intro c hc
+    rcases List.mem_append.mp hc with h | h
+    · cases n <;> simp at h
+      subst h; decide
+    · exact (natRepr_chars i).2 c h
+
+theorem floatDigits_chars (ds : List (Fin 10)) : ∀ c ∈ floatDigits ds, c.isDigit = true := by
+  intro c hc
+  unfold floatDigits at hc
+  obtain ⟨d, _, rfl⟩ := List.mem_map.mp hc
+  have : ∀ d : Fin 10, (Nat.digitChar d.val).isDigit = true := by decide
+  exact this d
+
+theorem digitChar_fin_inj : ∀ a b : Fin 10, Nat.digitChar a.val = Nat.digitChar b.val → a = b := by decide
+
+theorem floatDigits_inj {a b : List (Fin 10)} (h : floatDigits a = floatDigits b) : a = b := by
+  unfold floatDigits at h
+  exact (List.map_inj_right (fun x y e => digitChar_fin_inj x y e)).mp h
+
+theorem floatHead_inj {n n' : Bool} {i i' : Nat} (h : floatHead n i = floatHead n' i') : n = n' ∧ i = i' := by
+  unfold floatHead at h
+  have hd := fun (k : Nat) (c : Char) (hc : c ∈ (Nat.repr k).toList) => natRepr_digits k c hc
+  have hne := fun (k : Nat) => (natRepr_chars k).1
+  cases n <;> cases n' <;>
+    simp only [Bool.false_eq_true, if_false, if_true, List.nil_append, List.cons_append, List.cons.injEq, true_and] at h
+  · exact ⟨rfl, Nat.repr_injective (String.toList_inj.mp h)⟩
+  · exfalso
+    cases hr : (Nat.repr i).toList with
+    | nil => exact hne i hr
+    | cons ch rest =>
+      rw [hr] at h
+      simp only [List.cons.injEq] at h
+      have := hd i ch (by rw [hr]; exact List.mem_cons_self ..)
+      rw [h.1] at this; simp at this
+  · exfalso
+    cases hr : (Nat.repr i').toList with
+    | nil => exact hne i' hr
+    | cons ch rest =>
+      rw [hr] at h
+      simp only [List.cons.injEq] at h
+      have := hd i' ch (by rw [hr]; exact List.mem_cons_self ..)
+      rw [← h.1] at this; simp at this
+  · exact ⟨rfl, Nat.repr_injective (String.toList_inj.mp h)⟩
+
+theorem okRest_not_numCh {x : List Char} (hx : OkRest x) : ∀ c, x.head? = some c → numCh c = false := by
+  intro c hc
+  rcases hx c hc with e | e <;> subst e <;> decide
+
+theorem okRest_not_digit {x : List Char} (hx : OkRest x) : ∀ c, x.head? = some c → c.isDigit = false := by
+  intro c hc
+  rcases hx c hc with e | e <;> subst e <;> decide
+
+theorem dot_not_numCh (x : List Char) : ∀ c, ('.' :: x).head? = some c → numCh c = false := by
+  intro c hc; simp at hc; subst hc; decide
+
+/-- an integer is never a prefix-with-admissible-rest of a float's text -/
+theorem J_int_float_ne (i : Int) (n : Bool) (k : Nat) (d : Fin 10) (ds : List (Fin 10)) {r r' : List Char} (hr : OkRest r) :
+    J (.int i) ++ r ≠ J (.float n k d ds) ++ r' := by
+  intro h
+  rw [J_int, J_float, List.append_assoc] at h
+  obtain ⟨_, e2⟩ := span_unique (intRepr_chars i).2 (floatHead_chars n k).2 (okRest_not_numCh hr) (dot_not_numCh _) h
+  have := hr '.' (by rw [e2]; rfl)
+  rcases this with e | e <;> exact absurd e (by decide)
+
+/-- which kind of value a first character announces -/
+def headClass : Canon → Nat
+  | .int _ => 0
+  | .float _ _ _ _ => 0
+  | .str _ => 1
+  | .list _ => 2
+  | .bool _ => 3
+  | .null => 4
+
+def charClass (c : Char) : Nat :=
+  if numCh c then 0 else if c = '"' then 1 else if c = '[' then 2 else if c = 't' ∨ c = 'f' then 3 else if c = 'n' then 4 else 9
 
 /-- the first character tells the kind of value -/
-theorem J_head (c : Canon) : ∃ ch rest, J c = ch :: rest ∧
-    (match c with
-     | .int _ => numCh ch = true
-     | .str _ => ch = '"'
-     | .list _ => ch = '[') := by
+theorem J_head (c : Canon) : ∃ ch rest, J c = ch :: rest ∧ charClass ch = headClass c := by
   cases c with
   | int i =>
     have := intRepr_chars i
     rw [J_int]
     cases h : (toString i).toList with
     | nil => exact absurd h this.1
-    | cons ch rest => exact ⟨ch, rest, rfl, this.2 ch (by rw [h]; exact List.mem_cons_self ..)⟩
-  | str s => exact ⟨'"', _, J_str s, rfl⟩
-  | list l => exact ⟨'[', _, J_list l, rfl⟩
+    | cons ch rest =>
+      have := this.2 ch (by rw [h]; exact List.mem_cons_self ..)
+      exact ⟨ch, rest, rfl, by simp [charClass, headClass, this]⟩
+  | str s => exact ⟨'"', _, J_str s, by show charClass '"' = 1; decide⟩
+  | list l => exact ⟨'[', _, J_list l, by show charClass '[' = 2; decide⟩
+  | bool b =>
+    cases b
+    · exact ⟨'f', _, by rw [J_bool]; rfl, by show charClass 'f' = 3; decide⟩
+    · exact ⟨'t', _, by rw [J_bool]; rfl, by show charClass 't' = 3; decide⟩
+  | null => exact ⟨'n', _, J_null, by show charClass 'n' = 4; decide⟩
+  | float n i d ds =>
+    have := floatHead_chars n i
+    rw [J_float]
+    cases h : floatHead n i with
+    | nil => exact absurd h this.1
+    | cons ch rest =>
+      have := this.2 ch (by rw [h]; exact List.mem_cons_self ..)
+      exact ⟨ch, _, rfl, by simp [charClass, headClass, this]⟩
+
+theorem J_kind_mismatch {c c' : Canon} {r r' : List Char} (hk : headClass c ≠ headClass c') : J c ++ r ≠ J c' ++ r' := by
+  obtain ⟨ch, rest, e, h1⟩ := J_head c
+  obtain ⟨ch', rest', e', h1'⟩ := J_head c'
+  intro h
+  rw [e, e'] at h
+  simp only [List.cons_append, List.cons.injEq] at h
+  rw [h.1] at h1
+  exact hk (h1.symm.trans h1')
 
 theorem J_head_ne_close (c : Canon) (rest : List Char) : J c ≠ ']' :: rest := by
   obtain ⟨ch, rest', e, hk⟩ := J_head c
   intro h
   rw [e] at h
   simp only [List.cons.injEq] at h
-  cases c with
-  | int i => simp only at hk; rw [h.1] at hk; exact absurd hk (by decide)
-  | str s => simp only at hk; rw [h.1] at hk; exact absurd hk (by decide)
-  | list l => simp only at hk; rw [h.1] at hk; exact absurd hk (by decide)
+  rw [h.1] at hk
+  have : charClass ']' = 9 := by decide
+  rw [this] at hk
+  cases c <;> simp [headClass] at hk
 
 mutual
 /-- a printed value followed by an admissible rest determines the value and the rest -/
 theorem J_unique : ∀ (c c' : Canon) (r r' : List Char), OkRest r → OkRest r' → J c ++ r = J c' ++ r' → c = c' ∧ r = r'
   | .int i, .int j, r, r', hr, hr', h => by
       rw [J_int, J_int] at h
-      have hp : ∀ (x : List Char), OkRest x → ∀ c, x.head? = some c → numCh c = false := by
-        intro x hx c hc
-        rcases hx c hc with e | e <;> subst e <;> decide
-      obtain ⟨e1, e2⟩ := span_unique (intRepr_chars i).2 (intRepr_chars j).2 (hp r hr) (hp r' hr') h
+      obtain ⟨e1, e2⟩ := span_unique (intRepr_chars i).2 (intRepr_chars j).2 (okRest_not_numCh hr) (okRest_not_numCh hr') h
       exact ⟨by rw [toString_int_inj (String.toList_inj.mp e1)], e2⟩
   | .str s, .str t, r, r', _, _, h => by
       rw [J_str, J_str] at h
@@ -218,28 +338,54 @@ theorem J_unique : ∀ (c c' : Canon) (r r' : List Char), OkRest r → OkRest r'
       simp only [List.cons_append, List.cons.injEq, true_and, List.append_assoc, List.nil_append] at h
       obtain ⟨e1, e2⟩ := JL_unique l l' r r' h
       exact ⟨by rw [e1], e2⟩
-  | .int i, .str s, r, r', _, _, h => by
-      obtain ⟨ch, rest, e, hk⟩ := J_head (.int i)
-      rw [e, J_str] at h; simp only [List.cons_append, List.cons.injEq] at h
-      simp only at hk; rw [h.1] at hk; exact absurd hk (by decide)
-  | .int i, .list l, r, r', _, _, h => by
-      obtain ⟨ch, rest, e, hk⟩ := J_head (.int i)
-      rw [e, J_list] at h; simp only [List.cons_append, List.cons.injEq] at h
-      simp only at hk; rw [h.1] at hk; exact absurd hk (by decide)
-  | .str s, .int i, r, r', _, _, h => by
-      obtain ⟨ch, rest, e, hk⟩ := J_head (.int i)
-      rw [e, J_str] at h; simp only [List.cons_append, List.cons.injEq] at h
-      simp only at hk; rw [← h.1] at hk; exact absurd hk (by decide)
-  | .list l, .int i, r, r', _, _, h => by
-      obtain ⟨ch, rest, e, hk⟩ := J_head (.int i)
-      rw [e, J_list] at h; simp only [List.cons_append, List.cons.injEq] at h
-      simp only at hk; rw [← h.1] at hk; exact absurd hk (by decide)
-  | .str s, .list l, r, r', _, _, h => by
-      rw [J_str, J_list] at h; simp only [List.cons_append, List.cons.injEq] at h
-      exact absurd h.1 (by decide)
-  | .list l, .str s, r, r', _, _, h => by
-      rw [J_str, J_list] at h; simp only [List.cons_append, List.cons.injEq] at h
-      exact absurd h.1 (by decide)
+  | .bool b, .bool b', r, r', _, _, h => by
+      rw [J_bool, J_bool] at h
+      cases b <;> cases b' <;> simp at h
+      · exact ⟨rfl, h⟩
+      · exact ⟨rfl, h⟩
+  | .null, .null, r, r', _, _, h => by
+      rw [J_null] at h
+      simp at h
+      exact ⟨rfl, h⟩
+  | .float n i d ds, .float n' i' d' ds', r, r', hr, hr', h => by
+      rw [J_float, J_float, List.append_assoc, List.append_assoc] at h
+      obtain ⟨e1, e2⟩ := span_unique (floatHead_chars n i).2 (floatHead_chars n' i').2 (dot_not_numCh _) (dot_not_numCh _) h
+      simp only [List.cons.injEq, true_and] at e2
+      obtain ⟨e3, e4⟩ := span_unique (floatDigits_chars _) (floatDigits_chars _) (okRest_not_digit hr) (okRest_not_digit hr') e2
+      obtain ⟨a, b⟩ := floatHead_inj e1
+      have := floatDigits_inj e3
+      simp only [List.cons.injEq] at this
+      exact ⟨by rw [a, b, this.1, this.2], e4⟩
+  | .int i, .str t, r, r', _, _, h => absurd h (J_kind_mismatch (by simp [headClass]))
+  | .int i, .list l', r, r', _, _, h => absurd h (J_kind_mismatch (by simp [headClass]))
+  | .int i, .bool b', r, r', _, _, h => absurd h (J_kind_mismatch (by simp [headClass]))
+  | .int i, .null, r, r', _, _, h => absurd h (J_kind_mismatch (by simp [headClass]))
+  | .int i, .float n' i' d' ds', r, r', hr, _, h => absurd h (J_int_float_ne i n' i' d' ds' hr)
+  | .str s, .int j, r, r', _, _, h => absurd h (J_kind_mismatch (by simp [headClass]))
+  | .str s, .list l', r, r', _, _, h => absurd h (J_kind_mismatch (by simp [headClass]))
+  | .str s, .bool b', r, r', _, _, h => absurd h (J_kind_mismatch (by simp [headClass]))
+  | .str s, .null, r, r', _, _, h => absurd h (J_kind_mismatch (by simp [headClass]))
+  | .str s, .float n' i' d' ds', r, r', _, _, h => absurd h (J_kind_mismatch (by simp [headClass]))
+  | .list l, .int j, r, r', _, _, h => absurd h (J_kind_mismatch (by simp [headClass]))
+  | .list l, .str t, r, r', _, _, h => absurd h (J_kind_mismatch (by simp [headClass]))
+  | .list l, .bool b', r, r', _, _, h => absurd h (J_kind_mismatch (by simp [headClass]))
+  | .list l, .null, r, r', _, _, h => absurd h (J_kind_mismatch (by simp [headClass]))
+  | .list l, .float n' i' d' ds', r, r', _, _, h => absurd h (J_kind_mismatch (by simp [headClass]))
+  | .bool b, .int j, r, r', _, _, h => absurd h (J_kind_mismatch (by simp [headClass]))
+  | .bool b, .str t, r, r', _, _, h => absurd h (J_kind_mismatch (by simp [headClass]))
+  | .bool b, .list l', r, r', _, _, h => absurd h (J_kind_mismatch (by simp [headClass]))
+  | .bool b, .null, r, r', _, _, h => absurd h (J_kind_mismatch (by simp [headClass]))
+  | .bool b, .float n' i' d' ds', r, r', _, _, h => absurd h (J_kind_mismatch (by simp [headClass]))
+  | .null, .int j, r, r', _, _, h => absurd h (J_kind_mismatch (by simp [headClass]))
+  | .null, .str t, r, r', _, _, h => absurd h (J_kind_mismatch (by simp [headClass]))
+  | .null, .list l', r, r', _, _, h => absurd h (J_kind_mismatch (by simp [headClass]))
+  | .null, .bool b', r, r', _, _, h => absurd h (J_kind_mismatch (by simp [headClass]))
+  | .null, .float n' i' d' ds', r, r', _, _, h => absurd h (J_kind_mismatch (by simp [headClass]))
+  | .float n i d ds, .int j, r, r', _, hr', h => absurd h.symm (J_int_float_ne j n i d ds hr')
+  | .float n i d ds, .str t, r, r', _, _, h => absurd h (J_kind_mismatch (by simp [headClass]))
+  | .float n i d ds, .list l', r, r', _, _, h => absurd h (J_kind_mismatch (by simp [headClass]))
+  | .float n i d ds, .bool b', r, r', _, _, h => absurd h (J_kind_mismatch (by simp [headClass]))
+  | .float n i d ds, .null, r, r', _, _, h => absurd h (J_kind_mismatch (by simp [headClass]))
 /-- the elements of a list followed by the closing bracket determine the list and the rest -/
 theorem JL_unique : ∀ (l l' : List Canon) (r r' : List Char), JL l ++ ']' :: r = JL l' ++ ']' :: r' → l = l' ∧ r = r'
   | [], [], r, r', h => by simp [JL] at h; exact ⟨rfl, h⟩
